@@ -36,6 +36,8 @@ fn exercise_record(obs: &mut Obs, r: &Record, family: &str, input: &[u8], depth:
     let _ = call(obs, "Record::data", family, input, || r.data().len());
     let compressed = call(obs, "Record::compressed", family, input, || r.compressed());
     let _ = call(obs, "Record::fmt", family, input, || format!("{:?}", r));
+    // the pretty form is formatting for debugging too (and what dbg!() prints)
+    let _ = call(obs, "Record::fmt", family, input, || format!("{:#?}", r).len());
     let d = call(obs, "Record::decompress", family, input, || r.decompress());
     let _ = call(obs, "Record::messages", family, input, || r.messages().map(|m| m.len()));
     if let Some(Ok(dec)) = d {
@@ -78,6 +80,7 @@ pub fn run_input(obs: &mut Obs, input: &[u8], family: &str) {
     }
     let _ = call(obs, "File::scan", family, input, || file.scan().map(|s| s.sweeps().len()));
     let _ = call(obs, "File::fmt", family, input, || format!("{:?}", file));
+    let _ = call(obs, "File::fmt", family, input, || format!("{:#?}", file).len());
 
     // as an LDM record (owned and borrowed)
     let owned = Record::new(input.to_vec());
@@ -96,6 +99,7 @@ pub fn run_input(obs: &mut Obs, input: &[u8], family: &str) {
     if let Some(Ok(chunk)) = call(obs, "Chunk::new", family, input, || Chunk::new(input.to_vec())) {
         let _ = call(obs, "Chunk::data", family, input, || chunk.data().len());
         let _ = call(obs, "Chunk::fmt", family, input, || format!("{:?}", chunk));
+        let _ = call(obs, "Chunk::fmt", family, input, || format!("{:#?}", chunk).len());
         match &chunk {
             Chunk::Start(f) => {
                 let _ = call(obs, "File::records", family, input, || f.records().len());
